@@ -27,6 +27,10 @@ CLAIMED = {
         text="Theorems (Coq): CircularDnaOptimizationProblem.resolve_constraints returns normally only if the circular evaluation of every constraint passes (final-check dominance, whatever the solver did on the three-copy view) and keeps the length; the circular evaluation sees across the origin (a passing whole-sequence AvoidPattern / windowed GC on the three-copy view has no occurrence / breaching window in s + s[:k-1]); edit mirroring yields three equal copies and takes over single-copy edits. Circular evaluations, specification shifting and mirroring tied by correspondence; solves checked by an independent cyclic scan, all_constraints_pass(autopass=False) and hard-restriction membership on the implementation.",
         note="Trusted: Coq kernel; the solver run on the three-copy view is abstract in the theorem (its linear version is the subject of C01/C12); hard restrictions after a circular solve are decided by the oracle, not by a theorem.",
         technique="Coq proof (final-check dominance, wrap-around window lemmas) + vm_compute correspondence + cyclic-scan oracle", design="6/C13"),
+    "C16": dict(
+        text="Theorems (Coq): the label grammar of Specification.from_label / list_from_label round-trips: a descriptor (role, name, positional and keyword arguments) rendered in the documented syntax ('@'/'~' role prefix, name, arguments in parentheses separated by ', ', ':' or '=' keywords, '|' lists, labels joined by '&', surrounding blanks) parses back to the same descriptor, and values are typed as documented (quoted -> string, integer, decimal, otherwise bare string). Tied to the code by running the Gallina parser and the implementation's parser on the same generated labels. Partial: that the parsed descriptor handed to the class constructors defines the same specifications as a direct API call, shorthand-name resolution, feature location/strand mapping and the Genbank write -> load round trip are decided by the differential run (recorded constructor calls and specification content compared with the API-built problem).",
+        note="Partial: Biopython's Genbank reader/writer and Python's constructor dispatch (**kwargs, default arguments) are outside the model; that half is differential only. Trusted: Coq kernel, the recorder that captures constructor calls.",
+        technique="Coq proof (render/parse round-trip of the label grammar) + vm_compute correspondence of the parser + differential run API problem vs Genbank record", design="6/C16"),
     "C17": dict(
         text="Theorems (Coq): number_of_edits is the number of differing positions; edit features are exactly the maximal runs of edited positions and are labelled with the true before/after sub-sequences; the summary says SUCCESS iff every listed evaluation passes. These are functions of the current state, so 'at any point of a problem's life' is 'for all states'; histories (resolve/optimize/optimize_objective/manual assignments) are exercised by the differential run, which also checks the boost-weighted total and its rounded text against an independent formatter.",
         note="Trusted: Coq kernel; float formatting of the total and Biopython feature objects are outside the model (differential only).",
